@@ -5,6 +5,7 @@
 import RosuModel.Props.C04DecodedObjectsIeee
 import RosuModel.Lemmas.FloatIntExact32
 import RosuModel.Lemmas.SliderEx
+import RosuModel.Lemmas.HitObjectBlockAcc
 import RosuModel.Model.Cmds.Curve
 set_option linter.unusedSectionVars false
 namespace Rosu.C04
@@ -310,6 +311,154 @@ theorem hitobjects_block_accepted_decoded_ieee_int (bs : List UInt8) (st : Beatm
       ∀ st' : HOCore Float Float32, Accepts (parseHitObjectLine m.general.mode) st' (H.map trimEnd) :=
   hitobjects_block_accepted C02.codecLaws_float_ieee C02.codecLaws_float32_ieee FCO.coordLaws_float m
     (fun h hh => decoded_objects_representable_ieee_int_partial bs st m h1 h2 m.general.mode h hh (hres h hh))
+
+end
+
+/-! ### any times: ACCEPTANCE needs the written end time not to exceed the limit, and nothing else -/
+
+open Float.Model Float.Model.UnpackedFloat in
+/-- the sum of a finite value and a number is a number (it may be `±∞`). -/
+theorem uadd_finite_not_nan (spec : Format) (a b : UnpackedFloat) (ha : a.isFinite = true) (hb : b.isNaN = false) :
+    (UnpackedFloat.add spec a b).isNaN = false := by
+  rcases a with s | _ | s | ⟨s, m, e, hm⟩
+  · cases ha
+  · cases ha
+  · rcases b with s' | _ | s' | ⟨s', m', e', hm'⟩
+    · rfl
+    · cases hb
+    · simp only [UnpackedFloat.add]; split <;> rfl
+    · rfl
+  · rcases b with s' | _ | s' | ⟨s', m', e', hm'⟩
+    · rfl
+    · cases hb
+    · rfl
+    · simp only [UnpackedFloat.add]; exact FB.normalize_not_nan _ _ _ _
+
+theorem add_not_nan_float (a b : Float) (ha : a.toModel.unpack.isFinite = true) (hb : Scalar.isNaN b = false) :
+    Scalar.isNaN (a + b) = false := by
+  show (a + b).toModel.unpack.isNaN = false
+  rw [FAM.float_add_unpack, FB.repack_isNaN]
+  exact uadd_finite_not_nan _ _ _ ha hb
+
+/-- **the written end time `start + duration` of a non-negative duration is a number and not below `−limit`** — so of the
+clauses of `InLimit (start + duration)` only the upper bound can fail (and does: `end_time_over_limit_float`). -/
+theorem end_time_lower_float (t d : Float) (ht : InLimit t) (hd0 : Scalar.le (0 : Float) d = true)
+    (hdn : Scalar.isNaN d = false) :
+    Scalar.lt (t + d) (-(maxParseValue : Float)) = false ∧ Scalar.isNaN (t + d) = false := by
+  have hfin := C14.inLimit_finite t ht
+  have n0 : Scalar.isNaN (0 : Float) = false := by decide +kernel
+  have n1 := add_not_nan_float t 0 hfin n0
+  have n2 := add_not_nan_float t d hfin hdn
+  have nL : Scalar.isNaN (-(maxParseValue : Float)) = false := by decide +kernel
+  have mono := FAM.add_le_add_left_float t 0 d hd0 n1 n2
+  have low : Scalar.le (-(maxParseValue : Float)) (t + 0) = true := by
+    by_cases hz : t = FX.nzero64
+    · rw [hz, FX.negzero_add_zero_float]; decide +kernel
+    · rw [FX.add_zero_float t hz]
+      exact FMO.le_of_not_lt t _ ht.2.2 nL ht.1
+  exact ⟨FMO.not_lt_of_le _ _ (FMO.le_trans _ _ _ low mono), n2⟩
+
+/-- the one numeric residual of a decoded spinner / hold note for ACCEPTANCE: the end time the encoder writes does not exceed
+the parse limit `2147483647` (false e.g. for start `−1.0000007152557373`, end `2147483647`). -/
+def EndOk (t d : Float) : Prop := Scalar.lt (maxParseValue : Float) (t + d) = false
+
+theorem IntSpan.endOk {t d : Float} (h : IntSpan t d) : EndOk t d := (intSpan_laws t d h).1.2.2.1
+
+section
+variable [Trig Float] [Trig Float32]
+
+/-- the residual of one decoded object on the IEEE instances, acceptance form. No law, no integrality. -/
+def ObjResidualAcc (h : HitObject Float Float32) : Prop :=
+  match h.kind with
+  | .slider s => SliderResidual IeeeRep64 s
+  | .circle _ => FileNameResidual h.samples
+  | .spinner sp => FileNameResidual h.samples ∧ EndOk h.startTime sp.duration
+  | .hold ho => FileNameResidual h.samples ∧ EndOk h.startTime ho.duration
+
+theorem ObjResidualInt.toAcc {h : HitObject Float Float32} (hr : ObjResidualInt h) : ObjResidualAcc h := by
+  unfold ObjResidualInt at hr
+  unfold ObjResidualAcc
+  cases hk : h.kind with
+  | circle c => rw [hk] at hr; exact hr
+  | slider s => rw [hk] at hr; exact hr
+  | spinner sp => rw [hk] at hr; exact ⟨hr.1, hr.2.endOk⟩
+  | hold ho => rw [hk] at hr; exact ⟨hr.1, hr.2.endOk⟩
+
+/-- **spinners of decoded maps, IEEE instances, ANY times** — `RepSpinnerA` (everything acceptance of the line needs) as soon
+as the file-name residual holds and the written end time does not exceed the limit. No law. -/
+theorem decoded_spinners_acc_ieee (bs : List UInt8) (st : BeatmapState Float Float32)
+    (m : Beatmap Float Float32) (h1 : decodeBytes beatmapDecoder bs = .ok st) (h2 : st.finish = .ok m) (mode : GameMode) :
+    ∀ h ∈ m.hitObjects, ∀ sp, h.kind = .spinner sp → FileNameResidual h.samples → EndOk h.startTime sp.duration →
+      RepSpinnerA IeeeRep64 IeeeRep32 mode h sp := by
+  intro h hh sp hk hres hend
+  obtain ⟨ht, hst⟩ := C14.decoded_stored bs st m h1 h2 h hh
+  have hok := decoded_objOk bs st m h1 h2 h hh
+  have hie := C14.storedKind_ieee _ ht _ hst
+  rw [hk] at hst hie
+  have hnn := hie.2
+  obtain ⟨hpos, _⟩ := hst
+  have hpx : sp.pos.x = (512 : Float32) / 2 := by rw [hpos]
+  have hpy : sp.pos.y = (384 : Float32) / 2 := by rw [hpos]
+  obtain ⟨hlow, hn⟩ := end_time_lower_float h.startTime sp.duration ht hnn.1 hnn.2
+  exact ⟨by rw [hpx]; exact objLaws_ieee.spinnerX, by rw [hpy]; exact objLaws_ieee.spinnerY, ⟨ht.2.2, ht⟩,
+    ⟨hn, hlow, hend, hn⟩, repSamples_of_ok _ _ hok.samples hres⟩
+
+/-- **hold notes of decoded maps, IEEE instances, ANY times** — `RepHoldA`. No law. -/
+theorem decoded_holds_acc_ieee (bs : List UInt8) (st : BeatmapState Float Float32)
+    (m : Beatmap Float Float32) (h1 : decodeBytes beatmapDecoder bs = .ok st) (h2 : st.finish = .ok m) (mode : GameMode) :
+    ∀ h ∈ m.hitObjects, ∀ ho, h.kind = .hold ho → FileNameResidual h.samples → EndOk h.startTime ho.duration →
+      RepHoldA IeeeRep64 IeeeRep32 mode h ho := by
+  intro h hh ho hk hres hend
+  obtain ⟨ht, hst⟩ := C14.decoded_stored bs st m h1 h2 h hh
+  have hok := decoded_objOk bs st m h1 h2 h hh
+  have hie := C14.storedKind_ieee _ ht _ hst
+  rw [hk] at hst hie
+  have hnn := hie.2
+  obtain ⟨hx, _⟩ := hst
+  obtain ⟨hlow, hn⟩ := end_time_lower_float h.startTime ho.duration ht hnn.1 hnn.2
+  exact ⟨repCoord_of_coordP objLaws_ieee hx, objLaws_ieee.holdY, ⟨ht.2.2, ht⟩, ⟨hn, hlow, hend, hn⟩,
+    repSamples_of_ok _ _ hok.samples hres⟩
+
+/-- **decoded_objects_acc_ieee_partial** — `AccObject` (the line of the object is carried by the format) for every object
+of a decoded `Beatmap<f64/f32>` satisfying `ObjResidualAcc`. No law hypothesis. -/
+theorem decoded_objects_acc_ieee_partial (bs : List UInt8) (st : BeatmapState Float Float32)
+    (m : Beatmap Float Float32) (h1 : decodeBytes beatmapDecoder bs = .ok st) (h2 : st.finish = .ok m) (mode : GameMode) :
+    ∀ h ∈ m.hitObjects, ObjResidualAcc h → AccObject IeeeRep64 IeeeRep32 mode h := by
+  intro h hh hres
+  unfold ObjResidualAcc at hres
+  cases hk : h.kind with
+  | circle c =>
+    rw [hk] at hres
+    exact .circle c hk (decoded_circles_representable_ieee bs st m h1 h2 mode h hh c hk hres)
+  | slider s =>
+    rw [hk] at hres
+    obtain ⟨dist, hr⟩ := decoded_sliders_representable_ieee_partial bs st m h1 h2 mode h hh s hk hres
+    exact .slider s dist hk hr
+  | spinner sp =>
+    rw [hk] at hres
+    exact .spinner sp hk (decoded_spinners_acc_ieee bs st m h1 h2 mode h hh sp hk hres.1 hres.2)
+  | hold ho =>
+    rw [hk] at hres
+    exact .hold ho hk (decoded_holds_acc_ieee bs st m h1 h2 mode h hh ho hk hres.1 hres.2)
+
+/-- **hitobjects_block_accepted_decoded_ieee** — C04 for the `[HitObjects]` block of a decoded `Beatmap<f64/f32>`, ANY times,
+NO LAW HYPOTHESIS: decode any bytes to `m`; if every object satisfies `ObjResidualAcc` (sliders: `PathShapeOk` + F20; circles,
+spinners, holds: the file-name residual F21 / `|`; spinners and holds: the written end time `start + duration` does not
+exceed `2147483647`), then `encode_hit_objects m` succeeds, the block is `[HitObjects]` followed by one LF-free record line
+per object, and `parse_hit_objects` run over these lines (end-trimmed) from any decoder state accepts every one of them and
+appends, in order, objects of the same kinds at the same start times. The durations read back may differ from the stored
+ones (`duration_drifts_float`); they are `max((start + duration) − start, 0)` / `max(start, start + duration) − start`
+(`RtObjects.spinner_line_accepted`, `hold_line_accepted`). -/
+theorem hitobjects_block_accepted_decoded_ieee (bs : List UInt8) (st : BeatmapState Float Float32)
+    (m : Beatmap Float Float32) (h1 : decodeBytes beatmapDecoder bs = .ok st) (h2 : st.finish = .ok m)
+    (hres : ∀ h ∈ m.hitObjects, ObjResidualAcc h) :
+    ∃ H : List Str, encodeHitObjects m = .ok (unlines (str "[HitObjects]" :: H)) ∧ RtFile.ListBlockShape H ∧
+      H.length = m.hitObjects.length ∧
+      ∀ st' : HOCore Float Float32, Accepts (parseHitObjectLine m.general.mode) st' (H.map trimEnd) ∧
+        ∃ os, (C11.runSection (parseHitObjectLine m.general.mode) st' (H.map trimEnd)).hitObjects = st'.hitObjects ++ os ∧
+          os.map timeKind = m.hitObjects.map timeKind :=
+  hitobjects_block_accepted_acc C02.codecLaws_float_ieee C02.codecLaws_float32_ieee FCO.coordLaws_float m
+    (fun h hh => decoded_objects_acc_ieee_partial bs st m h1 h2 m.general.mode h hh (hres h hh))
 
 end
 
